@@ -11,7 +11,10 @@
 package verifsim
 
 import (
+	"reflect"
+	"runtime"
 	"sync/atomic"
+	"time"
 )
 
 // Request is what a task sends to the controller.
@@ -20,14 +23,98 @@ type Request struct {
 	Site    int
 	Blocked bool // the task could not take a lock and must not be chosen until others ran
 	Done    bool
+	// tasks SpawnFrom..SpawnTo-1 were created by go statements of the library since the last request
+	SpawnFrom, SpawnTo int
 }
 
+// Every task record is allocated by the controller in Start (so id and wake are written before
+// any task goroutine exists); whatever tasks write later is atomic. With synchronisation events
+// switched off nothing else would be ordered for the race detector.
 type task struct {
-	id   int
-	wake chan struct{}
+	id     int
+	wake   chan struct{}
+	goid   atomic.Int64 // goroutine running this task (set by TaskMain / GoWrap)
+	parent atomic.Int64 // task whose go statement created this one (-1: a task of the workload)
+	state  atomic.Int32 // 0 runnable, 1 reported itself blocked, 2 finished
+}
+
+const spareTasks = 96 // records available for goroutines the library starts
+
+var (
+	nTasks    atomic.Int64 // records in use
+	reportedN atomic.Int64 // records the controller has been told about
+)
+
+var goParent atomic.Int64 // task executing the go statement between BeforeGo and AfterGo
+
+// RootOf returns the workload task on whose behalf task id runs (id itself for workload tasks).
+func RootOf(id int) int {
+	raceOff()
+	defer raceOn()
+	ts := *tasks.Load()
+	for id >= 0 && id < len(ts) && ts[id].parent.Load() >= 0 {
+		id = int(ts[id].parent.Load())
+	}
+	return id
+}
+
+// FamilyConcurrent reports whether another task of the same family (same root) could run
+// right now, i.e. whether the order of this task's actions relative to that task's is a
+// scheduling accident rather than something the library synchronises.
+func FamilyConcurrent(id int) bool {
+	raceOff()
+	defer raceOn()
+	ts := (*tasks.Load())[:nTasks.Load()]
+	root := func(i int) int {
+		for i >= 0 && i < len(ts) && ts[i].parent.Load() >= 0 {
+			i = int(ts[i].parent.Load())
+		}
+		return i
+	}
+	r := root(id)
+	for _, t := range ts {
+		if t.id != id && root(t.id) == r && t.state.Load() == 0 {
+			return true
+		}
+	}
+	return false
+}
+
+// goid returns the id of the calling goroutine (parsed from the first line of its stack
+// header, "goroutine N [running]:"). Hooks use it to recognise goroutines the library itself
+// started: those are not tasks, run freely and never talk to the controller.
+func goid() int64 {
+	var buf [40]byte
+	n := runtime.Stack(buf[:], false)
+	var id int64
+	for i := len("goroutine "); i < n && buf[i] >= '0' && buf[i] <= '9'; i++ {
+		id = id*10 + int64(buf[i]-'0')
+	}
+	return id
+}
+
+// scheduledHere reports the id of the running task if the caller is that task's goroutine.
+// Must be called with synchronisation events off.
+func scheduledHere() (int, bool) {
+	if !active.Load() {
+		return -1, false
+	}
+	id := current.Load()
+	if id < 0 {
+		return -1, false
+	}
+	ts := *tasks.Load()
+	if int(id) >= len(ts) || ts[id].goid.Load() != goid() {
+		return -1, false
+	}
+	return int(id), true
 }
 
 var (
+	spawnSeq     atomic.Int64 // number of GoWrap registrations
+	goBefore     atomic.Int64 // spawnSeq as seen by BeforeGo of the running task
+	generation   atomic.Int64 // incremented by Start: parked tasks of an earlier scheduler never join a later one
+
 	active  atomic.Bool
 	current atomic.Int64 // id of the running task, -1 = none (controller or solo execution)
 	atomicN atomic.Int64 // >0: the running task is inside a section that must not be preempted
@@ -47,12 +134,34 @@ func Current() int {
 	return id
 }
 
+// OnTask reports whether the caller is the goroutine of the task that currently holds the
+// baton (false for goroutines the library started itself, and outside scheduled execution).
+func OnTask() (int, bool) {
+	raceOff()
+	id, ok := scheduledHere()
+	raceOn()
+	return id, ok
+}
+
+// Active reports whether a scheduler is installed.
+func Active() bool {
+	raceOff()
+	a := active.Load()
+	raceOn()
+	return a
+}
+
+// RaceOff / RaceOn let the harness touch its own bookkeeping without contributing
+// synchronisation between tasks.
+func RaceOff() { raceOff() }
+func RaceOn()  { raceOn() }
+
 // Yield is called before every statement of the instrumented library.
 func Yield(site int) {
 	raceOff()
 	if active.Load() && atomicN.Load() == 0 {
-		if id := current.Load(); id >= 0 {
-			handoffLocked(Request{Task: int(id), Site: site})
+		if id, ok := scheduledHere(); ok {
+			handoffLocked(Request{Task: id, Site: site})
 		}
 	}
 	raceOn()
@@ -62,7 +171,7 @@ func Yield(site int) {
 // blocking the OS thread, so the controller stays in charge of who runs.
 func Acquire(site int, try func() bool) {
 	raceOff()
-	scheduled := active.Load() && current.Load() >= 0
+	id, scheduled := scheduledHere()
 	raceOn()
 	if !scheduled {
 		for !try() {
@@ -71,12 +180,201 @@ func Acquire(site int, try func() bool) {
 		}
 		return
 	}
-	Yield(site) // forced decision point right before the acquisition
-	for !try() { // the real TryLock keeps its real synchronisation semantics
-		raceOff()
-		handoffLocked(Request{Task: int(current.Load()), Site: site, Blocked: true})
-		raceOn()
+	poll(site, try) // the real TryLock keeps its real synchronisation semantics
+	_ = id
+}
+
+// poll is the common shape of every modelled blocking primitive: try() performs the real,
+// non-blocking form of the operation (with its real synchronisation semantics); while it
+// cannot proceed the task reports itself blocked and others run.
+func poll(site int, try func() bool) {
+	raceOff()
+	id, scheduled := scheduledHere()
+	raceOn()
+	if !scheduled {
+		for !try() {
+			time.Sleep(50 * time.Microsecond)
+		}
+		return
 	}
+	Yield(site)
+	for !try() {
+		raceOff()
+		if cur, still := scheduledHere(); still && cur == id {
+			handoffLocked(Request{Task: id, Site: site, Blocked: true})
+			raceOn()
+			continue
+		}
+		raceOn()
+		time.Sleep(50 * time.Microsecond) // the scheduler is gone: behave like the blocking operation
+	}
+}
+
+// ---- channel operations, select, Wait -------------------------------------------------------
+//
+// A task that cannot complete a channel operation gives the baton back (reporting itself
+// blocked) but stays really blocked in that very operation, so that a rendezvous with the task
+// that runs later is a real one (an unbuffered send meets a real, waiting receiver). When the
+// operation completes while the task is parked, the task waits for the baton before it goes on.
+
+// giveUpBaton reports the running task as blocked without waiting to be woken. Called with
+// synchronisation events off. Returns the channel on which the baton comes back.
+func giveUpBaton(id, site int) chan struct{} {
+	me := (*tasks.Load())[id]
+	me.state.Store(1)
+	r := Request{Task: id, Site: site, Blocked: true}
+	r.SpawnFrom, r.SpawnTo = drainSpawned()
+	reqCh <- r
+	return me.wake
+}
+
+func takeBaton(id int, wake chan struct{}, wait bool) {
+	raceOff()
+	if wait {
+		<-wake
+	}
+	(*tasks.Load())[id].state.Store(0)
+	raceOn()
+}
+
+func here() (int, bool) {
+	raceOff()
+	id, ok := scheduledHere()
+	raceOn()
+	return id, ok
+}
+
+// Recv1 replaces the expression <-ch.
+func Recv1[T any](site int, ch <-chan T) T {
+	v, _ := Recv2(site, ch)
+	return v
+}
+
+// Recv2 replaces v, ok := <-ch.
+func Recv2[T any](site int, ch <-chan T) (v T, ok bool) {
+	if _, sched := here(); !sched {
+		v, ok = <-ch
+		return
+	}
+	Yield(site)
+	for {
+		select {
+		case v, ok = <-ch:
+			return
+		default:
+		}
+		id, sched := here()
+		if !sched {
+			v, ok = <-ch
+			return
+		}
+		raceOff()
+		wake := giveUpBaton(id, site)
+		raceOn()
+		select {
+		case v, ok = <-ch:
+			takeBaton(id, wake, true)
+			return
+		case <-wake:
+			takeBaton(id, wake, false)
+		}
+	}
+}
+
+// Send replaces ch <- v.
+func Send[T any](site int, ch chan<- T, v T) {
+	if _, sched := here(); !sched {
+		ch <- v
+		return
+	}
+	Yield(site)
+	for {
+		select {
+		case ch <- v:
+			return
+		default:
+		}
+		id, sched := here()
+		if !sched {
+			ch <- v
+			return
+		}
+		raceOff()
+		wake := giveUpBaton(id, site)
+		raceOn()
+		select {
+		case ch <- v:
+			takeBaton(id, wake, true)
+			return
+		case <-wake:
+			takeBaton(id, wake, false)
+		}
+	}
+}
+
+// parkedIn is the select statement (site) in which the task gave the baton away, 0 if none.
+// Only the task itself reads and writes its entry.
+var parkedIn [1024]atomic.Int64
+
+// SelWait is the extra communication clause of an instrumented select statement without
+// default:  case <-verifsim.SelWait(site): goto L.  The task gives the baton away and then
+// really blocks in the select; the clause fires when the controller hands the baton back
+// although no other clause was ready (the select is then entered again).
+func SelWait(site int) <-chan struct{} {
+	id, sched := here()
+	if !sched {
+		return nil // never ready: the select behaves as written
+	}
+	raceOff()
+	wake := giveUpBaton(id, site)
+	parkedIn[id%len(parkedIn)].Store(int64(site))
+	raceOn()
+	return wake
+}
+
+// AwaitBaton is the first statement of every clause of an instrumented select: if the clause
+// fired while the task was parked, the task waits for the baton before running the clause body.
+func AwaitBaton() {
+	raceOff()
+	if active.Load() {
+		g := goid()
+		ts := (*tasks.Load())[:nTasks.Load()]
+		for _, t := range ts {
+			if t.goid.Load() == g {
+				if parkedIn[t.id%len(parkedIn)].Swap(0) != 0 {
+					<-t.wake
+					t.state.Store(0)
+				}
+				break
+			}
+		}
+	}
+	raceOn()
+}
+
+// SelWoken is called by the extra clause itself (the baton came back, nothing else was ready).
+func SelWoken() {
+	raceOff()
+	if id, ok := scheduledHere(); ok {
+		parkedIn[id%len(parkedIn)].Store(0)
+		(*tasks.Load())[id].state.Store(0)
+	}
+	raceOn()
+}
+
+// WaitFunc replaces a statement x.Wait() (WaitGroup, Cond, ...): the real wait runs in a helper
+// goroutine; the task waits for the helper like for a channel.
+func WaitFunc(site int, wait func()) {
+	if _, sched := here(); !sched {
+		wait()
+		return
+	}
+	done := make(chan struct{})
+	go func() {
+		wait()
+		close(done)
+	}()
+	Recv2(site, (<-chan struct{})(done))
 }
 
 // EnterAtomic/ExitAtomic bracket calls that must not be preempted (sync.Once-shaped).
@@ -87,31 +385,152 @@ func ExitAtomic()  { raceOff(); atomicN.Add(-1); raceOn() }
 func handoffLocked(r Request) {
 	ts := *tasks.Load()
 	me := ts[r.Task]
+	r.SpawnFrom, r.SpawnTo = drainSpawned()
+	if r.Blocked {
+		me.state.Store(1)
+	}
 	reqCh <- r
 	<-me.wake
+	me.state.Store(0)
+}
+
+func drainSpawned() (from, to int) {
+	n := nTasks.Load()
+	return int(reportedN.Swap(n)), int(n)
+}
+
+// ---- goroutines started by the library ------------------------------------------------------
+//
+// "go f(a, b)" is instrumented as
+//
+//	verifsim.BeforeGo(); go verifsim.GoWrap(site, verifsim.Bind(f, a, b)); verifsim.AfterGo()
+//
+// Function value and arguments are still evaluated by the parent at the go statement. The new
+// goroutine registers itself as a task and parks until the controller runs it; the parent waits
+// (in real time, briefly) for that registration, so the controller learns about the new task
+// with the parent's next request: deterministic.
+
+// Bind evaluates nothing itself: it packages an already evaluated call.
+func Bind(f any, args ...any) func() {
+	if g, ok := f.(func()); ok && len(args) == 0 {
+		return g
+	}
+	fv := reflect.ValueOf(f)
+	in := make([]reflect.Value, len(args))
+	for i, a := range args {
+		if a == nil {
+			in[i] = reflect.Zero(fv.Type().In(min(i, fv.Type().NumIn()-1)))
+		} else {
+			in[i] = reflect.ValueOf(a)
+		}
+	}
+	return func() { fv.Call(in) }
+}
+
+// BindSlice is Bind for a call whose last argument is spread (f(a, xs...)).
+func BindSlice(f any, args ...any) func() {
+	fv := reflect.ValueOf(f)
+	in := make([]reflect.Value, len(args))
+	for i, a := range args {
+		in[i] = reflect.ValueOf(a)
+	}
+	return func() { fv.CallSlice(in) }
+}
+
+func BeforeGo() {
+	raceOff()
+	goBefore.Store(spawnSeq.Load())
+	goParent.Store(current.Load())
+	raceOn()
+}
+
+func AfterGo() {
+	raceOff()
+	if _, ok := scheduledHere(); ok {
+		deadline := time.Now().Add(2 * time.Second)
+		for spawnSeq.Load() == goBefore.Load() && time.Now().Before(deadline) {
+			runtime.Gosched()
+			time.Sleep(20 * time.Microsecond)
+		}
+	}
+	raceOn()
+}
+
+// GoWrap runs in the new goroutine.
+func GoWrap(site int, fn func()) {
+	raceOff()
+	if !active.Load() || current.Load() < 0 {
+		// started outside scheduled execution: an ordinary goroutine
+		raceOn()
+		fn()
+		return
+	}
+	gen := generation.Load()
+	// claim one of the spare records (only atomics are written)
+	ts := *tasks.Load()
+	id := int(nTasks.Add(1)) - 1
+	if id >= len(ts) {
+		// out of records: an ordinary, unscheduled goroutine
+		nTasks.Add(-1)
+		spawnSeq.Add(1)
+		raceOn()
+		fn()
+		return
+	}
+	t := ts[id]
+	t.parent.Store(goParent.Load())
+	t.state.Store(0)
+	t.goid.Store(goid())
+	spawnSeq.Add(1)
+	<-t.wake // parked until the controller runs this task (or the scheduler is removed)
+	raceOn()
+	fn()
+	raceOff()
+	t.state.Store(2)
+	if active.Load() && generation.Load() == gen {
+		if cur, ok := scheduledHere(); ok && cur == t.id {
+			f, to := drainSpawned()
+			reqCh <- Request{Task: t.id, Done: true, SpawnFrom: f, SpawnTo: to}
+		}
+	}
+	raceOn()
 }
 
 // ---- controller side (called by the harness goroutine only) -----------------------------
 
 // Start installs a scheduler for n tasks and returns the request channel.
 func Start(n int) chan Request {
-	ts := make([]*task, n)
+	ts := make([]*task, n+spareTasks)
 	for i := range ts {
 		ts[i] = &task{id: i, wake: make(chan struct{}, 1)}
+		ts[i].parent.Store(-1)
 	}
 	tasks.Store(&ts)
+	nTasks.Store(int64(n))
+	reportedN.Store(int64(n))
 	reqCh = make(chan Request)
 	atomicN.Store(0)
 	current.Store(-1)
+	generation.Add(1)
 	active.Store(true)
 	return reqCh
 }
 
-// Stop removes the scheduler.
+// Stop removes the scheduler. Tasks that are still parked (goroutines the library started and
+// left waiting, e.g. a worker on its channel) are released and continue as ordinary goroutines.
 func Stop() {
 	active.Store(false)
 	current.Store(-1)
+	for _, t := range (*tasks.Load())[:nTasks.Load()] {
+		select {
+		case t.wake <- struct{}{}:
+		default:
+		}
+	}
 }
+
+// NumTasks returns the number of tasks known to the scheduler (initial + spawned).
+func NumTasks() int { return int(nTasks.Load()) }
 
 // Run lets task id run until its next request, which is returned.
 func Run(id int) Request {
@@ -127,10 +546,13 @@ func Run(id int) Request {
 func TaskMain(id int, body func()) {
 	raceOff()
 	ts := *tasks.Load()
+	ts[id].goid.Store(goid())
 	<-ts[id].wake
 	raceOn()
 	body()
 	raceOff()
-	reqCh <- Request{Task: id, Done: true}
+	ts[id].state.Store(2)
+	f, to := drainSpawned()
+	reqCh <- Request{Task: id, Done: true, SpawnFrom: f, SpawnTo: to}
 	raceOn()
 }
